@@ -42,6 +42,26 @@ type pinnedFn struct {
 	Sig     string   // flattened signature
 	Callers []string // keys of the functions that call it statically
 	Configs string   // build configurations in which it exists, comma separated
+	Params  []string // "name type" of every parameter (receiver excluded), in order
+}
+
+// paramList renders the parameters of f as "name type".
+func paramList(f *types.Func) []string {
+	sig, _ := f.Type().(*types.Signature)
+	if sig == nil {
+		return nil
+	}
+	q := func(p *types.Package) string { return p.Name() }
+	var out []string
+	for i := 0; i < sig.Params().Len(); i++ {
+		v := sig.Params().At(i)
+		t := types.TypeString(v.Type(), q)
+		if sig.Variadic() && i == sig.Params().Len()-1 {
+			t = "..." + strings.TrimPrefix(t, "[]")
+		}
+		out = append(out, v.Name()+" "+t)
+	}
+	return out
 }
 
 func isPinnedIn(key, config string) bool {
@@ -156,7 +176,7 @@ func genAnchors(repo string) error {
 			r := all[d.key]
 			if r == nil {
 				sig, _ := d.obj.Type().(*types.Signature)
-				r = &rec{pinnedFn: pinnedFn{Method: sig != nil && sig.Recv() != nil, Sig: flatSig(d.obj)}, configs: map[string]bool{}, callers: map[string]bool{}}
+				r = &rec{pinnedFn: pinnedFn{Method: sig != nil && sig.Recv() != nil, Sig: flatSig(d.obj), Params: paramList(d.obj)}, configs: map[string]bool{}, callers: map[string]bool{}}
 				all[d.key] = r
 			}
 			r.configs[config] = true
@@ -196,7 +216,7 @@ var pinnedSigs = map[string]pinnedFn{
 		}
 		sort.Strings(cs)
 		sort.Strings(cf)
-		fmt.Fprintf(&b, "\t%q: {Method: %v, Sig: %q, Callers: %#v, Configs: %q},\n", k, r.Method, r.Sig, cs, strings.Join(cf, ","))
+		fmt.Fprintf(&b, "\t%q: {Method: %v, Sig: %q, Callers: %#v, Configs: %q, Params: %#v},\n", k, r.Method, r.Sig, cs, strings.Join(cf, ","), r.Params)
 	}
 	b.WriteString("}\n\n// pinnedFuncs: the keys of pinnedSigs.\nvar pinnedFuncs = func() map[string]bool {\n\tm := map[string]bool{}\n\tfor k := range pinnedSigs {\n\t\tm[k] = true\n\t}\n\treturn m\n}()\n")
 	_, err := os.Stdout.WriteString(b.String())
@@ -221,6 +241,9 @@ func (l *Loaded) restoreIdentities() []string {
 		return nil
 	}
 	pkgs := l.modulePkgs()
+	if notes := l.restoreParamOrder(pkgs); len(notes) > 0 {
+		defer func() { l.orderNotes = notes }()
+	}
 	decls := moduleDecls(pkgs)
 	have := map[string]bool{}
 	for _, d := range decls {
@@ -656,3 +679,96 @@ func (l *Loaded) recheck(affected map[*packages.Package]bool) error {
 type importerFunc func(path string) (*types.Package, error)
 
 func (f importerFunc) Import(path string) (*types.Package, error) { return f(path) }
+
+// restoreParamOrder: an unexported function of the pinned tree whose parameters were merely
+// reordered (same names and types, another order; all call sites adapted) is given back the
+// pinned order - in its declaration and in every call - so that rules which read "argument 0
+// is the old name" keep reading the right argument.  Parameters are matched by name and type;
+// nothing is done when a name or a type changed, when the function is used as a value, or
+// when it is variadic.  The affected packages are type-checked again.
+func (l *Loaded) restoreParamOrder(pkgs []*packages.Package) []string {
+	decls := moduleDecls(pkgs)
+	var notes []string
+	affected := map[*packages.Package]bool{}
+	for _, d := range decls {
+		pin, ok := pinnedSigs[d.key]
+		if !ok || d.obj.Exported() || !isPinnedIn(d.key, l.Config) || d.decl.Type.Params == nil {
+			continue
+		}
+		cur := paramList(d.obj)
+		if len(cur) != len(pin.Params) || len(cur) < 2 || strings.Join(cur, ",") == strings.Join(pin.Params, ",") {
+			continue
+		}
+		sig := d.obj.Type().(*types.Signature)
+		if sig.Variadic() {
+			continue
+		}
+		// perm[i] = index in the current list of the parameter that is pinned at position i
+		perm := make([]int, len(cur))
+		used := map[int]bool{}
+		okPerm := true
+		for i, want := range pin.Params {
+			found := -1
+			for j, have := range cur {
+				if have == want && !used[j] && !strings.HasPrefix(have, "_ ") && !strings.HasPrefix(have, " ") {
+					found = j
+					break
+				}
+			}
+			if found < 0 {
+				okPerm = false
+				break
+			}
+			used[found] = true
+			perm[i] = found
+		}
+		if !okPerm {
+			continue
+		}
+		pl := &identityPlan{key: d.key, pinned: pin, cand: d}
+		if !l.collectUses(pl, pkgs) {
+			continue
+		}
+		bad := false
+		for _, c := range pl.calls {
+			if len(c.Args) != len(cur) || c.Ellipsis.IsValid() {
+				bad = true // f(g()) with a multi-value g, or a spread
+			}
+		}
+		if bad {
+			continue
+		}
+		// declaration: one field per name, in the pinned order
+		var flat []*ast.Field
+		for _, f := range d.decl.Type.Params.List {
+			for _, nm := range f.Names {
+				flat = append(flat, &ast.Field{Names: []*ast.Ident{nm}, Type: f.Type})
+			}
+		}
+		if len(flat) != len(cur) {
+			continue
+		}
+		newList := make([]*ast.Field, len(flat))
+		for i := range perm {
+			newList[i] = flat[perm[i]]
+		}
+		d.decl.Type.Params.List = newList
+		for _, c := range pl.calls {
+			args := make([]ast.Expr, len(c.Args))
+			for i := range perm {
+				args[i] = c.Args[perm[i]]
+			}
+			c.Args = args
+		}
+		affected[d.pkg] = true
+		notes = append(notes, fmt.Sprintf("%s is judged with its parameters in the pinned order (%s)", d.key, strings.Join(pin.Params, ", ")))
+	}
+	if len(affected) == 0 {
+		return nil
+	}
+	if err := l.recheck(affected); err != nil {
+		l.identityErr = fmt.Errorf("restoring the pinned parameter order failed: %v", err)
+		return nil
+	}
+	return notes
+}
